@@ -148,6 +148,8 @@ pub fn opts_for(prop: &str) -> GenOpts {
             o.partial_pct = 50;
             o.max_ops = 6;
             o.stale_pct = 25;
+            // a skip_to_end by another thread while a chunk is being filled (seeded change C03-r7)
+            o.w_skip = 4;
         }
         "C04" => {
             o.w_query = 12;
